@@ -127,30 +127,27 @@ def loadLatency (m : MModel) (regType : Option Txt) : Except Err Rat :=
   | none => .error .keyError
   | some v => if truthy v then numOf v else .ok 0
 
-/-- the rows `get_load_throughput` returns: `(dst, port_pressure)`; the default stands for a row
-    without register type -/
-def loadCandidates (m : MModel) (mem : PMem) : List (Option Txt × Y) :=
-  match m.loadRows.filter (rowMatches m.isa mem) with
-  | [] => [(none, m.loadDefault)]
-  | rows => rows.map fun r => (r.reg, r.pp)
+/-- does the row name a register type (`dst` / `src`) that matches the instruction's -/
+def rowTyped (isa : Isa) (regType : Option Txt) (r : Row) : Bool :=
+  match r.reg with
+  | some d => regTypeMatches isa regType d
+  | none => false
 
-/-- which load row is used: the first candidate whose `dst` matches the register type, else the
-    first candidate -/
+/-- which load row is used (`get_load_throughput` + the choice in `assign_tp_lt`): among the rows whose
+    addressing shape matches, the first whose `dst` matches the register type, else the first; the
+    default if no row matches (it stands for a row without register type) -/
 def chooseLoad (m : MModel) (regType : Option Txt) (mem : PMem) : Y :=
-  let cands := loadCandidates m mem
-  match cands.find? (fun c => match c.1 with
-                              | some d => regTypeMatches m.isa regType d
-                              | none => false) with
-  | some c => c.2
-  | none => (cands.headD (none, m.loadDefault)).2
+  let rows := m.loadRows.filter (rowMatches m.isa mem)
+  match rows.find? (rowTyped m.isa regType) with
+  | some r => r.pp
+  | none =>
+    match rows with
+    | r :: _ => r.pp
+    | [] => m.loadDefault
 
 /-- `get_store_throughput(memory, dummy_reg)[0][1]` -/
 def chooseStore (m : MModel) (regType : Option Txt) (mem : PMem) : Y :=
-  let rows := (m.storeRows.filter (rowMatches m.isa mem)).filter
-    (fun r => match r.reg with
-              | some s => regTypeMatches m.isa regType s
-              | none => false)
-  match rows with
+  match (m.storeRows.filter (rowMatches m.isa mem)).filter (rowTyped m.isa regType) with
   | [] => m.storeDefault
   | r :: _ => r.pp
 
